@@ -293,6 +293,39 @@ func runC11(e *Engine, r *Report) {
 			}
 		}
 	}
+	// ---- the snapshot pool drops its references (which keep the state
+	// machines open) only after its workers have been stopped and joined:
+	// every call of unloadNodes comes after workerStopper.Stop()
+	if un := r.need("(*dragonboat.workerPool).unloadNodes"); un != nil {
+		stopF := r.needField("", "workerPool", "workerStopper")
+		isStop := func(in ssa.Instruction) bool {
+			c, ok := in.(*ssa.Call)
+			if !ok || len(c.Call.Args) == 0 {
+				return false
+			}
+			sc := c.Call.StaticCallee()
+			return sc != nil && sc.Name() == "Stop" && stopF != nil && fieldV(stopF)(c.Call.Args[0])
+		}
+		n := 0
+		for _, s := range e.CallerSites(un) {
+			n++
+			okp, _ := e.alwaysPrecededBy(s.(ssa.Instruction), isStop, 1)
+			r.check(okp, "MPT-pool-stop-order", "unloadNodes called in "+fname(s.Parent())+" after workerStopper.Stop()", e.ipos(s),
+				"snapshot workers are joined before the pool releases the nodes",
+				"the pool releases its node references while snapshot workers may still run: the offload count reaches zero and the user state machine is closed under a running save/recover/stream job")
+		}
+		r.floor("MPT-pool-stop-order", n, 1)
+		// unloadNodes is the only place that offloads everything; it must exist on the stop path
+		// and offload both the loaded and the busy nodes
+		off := e.Func("(*dragonboat.node).offloaded")
+		cnt := 0
+		forEachCall(un, func(c ssa.CallInstruction) {
+			if cc, ok := c.(*ssa.Call); ok && off != nil && e.CallsTo(cc, off) {
+				cnt++
+			}
+		})
+		r.check(cnt >= 2, "MPT-pool-stop-order", "unloadNodes offloads loaded and busy nodes", e.pos(un.Pos()), "both reference sets are released", "unloadNodes no longer releases both the loaded and the busy reference sets")
+	}
 }
 
 func lastN(ss []string, n int) string {
